@@ -31,10 +31,29 @@ BSTEREO = [0, 0, 0, 10, 11]
 # ----------------------------------------------------------------------------------------------
 # graphs as plain data:  atoms = [(Z, isotope|None, stereo)],  bonds = [(a1, a2, btype, stereo, label|None, Fraction forder)]
 # ----------------------------------------------------------------------------------------------
+ALL_ATYPES = [1]      # filled from the live AtomType / AtomGeom enums at the start of a run
+ALL_GEOMS = [0]
+
+
+def a_type(a):
+    return a[3] if len(a) > 3 else 1
+
+
+def a_geom(a):
+    return a[4] if len(a) > 4 else 0
+
+
+def a_label(a, i):
+    """explicit label of a described atom; by default atom i is labelled `a<i>` (unique)"""
+    return a[5] if len(a) > 5 and a[5] is not None else f"a{i}"
+
+
 def rand_atom(rng, plain=False):
+    """(Z, isotope, stereo, AtomType value, AtomGeom value): the last two are labels no graph query may depend on"""
     if plain:
         return (rng.choice(ELEMS), None, 0)
-    return (rng.choice(ELEMS), rng.choice([None, None, None, 12, 13]), rng.choice(ASTEREO))
+    return (rng.choice(ELEMS), rng.choice([None, None, None, 12, 13]), rng.choice(ASTEREO),
+            rng.choice(ALL_ATYPES) if rng.chance(1, 2) else 1, rng.choice(ALL_GEOMS) if rng.chance(1, 3) else 0)
 
 
 def rand_bond_attrs(rng, full=False):
@@ -118,7 +137,7 @@ def bonds_s(bonds) -> str:
 def atoms_s(atoms) -> str:
     if not atoms:
         return "-"
-    return ",".join(f"{z}:{'-' if iso is None else iso}:{st}" for z, iso, st in atoms)
+    return ",".join(f"{a[0]}:{'-' if a[1] is None else a[1]}:{a[2]}" for a in atoms)
 
 
 def q_line(n, bonds) -> str:
@@ -140,10 +159,11 @@ def build(atoms, bonds, kind="connectivity", rng=None):
     """the graph as a live object of one of the classes that carry the Connectivity queries.  Atom i has the unique
     label `a<i>`.  `substructure`: a Substructure of a larger, differently numbered parent Structure whose atoms and
     bonds restricted to the chosen atoms are exactly this graph."""
-    from molli.chem import Atom, Bond, BondStereo, BondType, AtomStereo, Connectivity, Element
+    from molli.chem import Atom, AtomGeom, AtomType, Bond, BondStereo, BondType, AtomStereo, Connectivity, Element
 
     def mk_atoms():
-        return [Atom(Element(z), isotope=iso, stereo=AtomStereo(st), label=f"a{i}") for i, (z, iso, st) in enumerate(atoms)]
+        return [Atom(Element(a[0]), isotope=a[1], stereo=AtomStereo(a[2]), label=a_label(a, i),
+                     atype=AtomType(a_type(a)), geom=AtomGeom(a_geom(a))) for i, a in enumerate(atoms)]
 
     def mk_bond(A, a1, a2, bt, st, lab, fo):
         return Bond(A[a1], A[a2], btype=BondType(bt), stereo=BondStereo(st), label=lab, f_order=float(fo))
@@ -165,7 +185,8 @@ def build(atoms, bonds, kind="connectivity", rng=None):
             parent.append_bond(b)
         ps = Structure(parent)
         # atoms of the copy, addressed in the original numbering through their labels
-        return Substructure(ps, [f"a{i}" for i in range(len(A))])
+        byid = {id(a): k for k, a in enumerate(parent.atoms)}
+        return Substructure(ps, [byid[id(a)] for a in A])
     c = Connectivity()
     A = mk_atoms()
     for a in A:
@@ -208,6 +229,8 @@ class Spelling:
         for i, a in enumerate(c.atoms):
             first.setdefault(a.element, i)
         self.first_of_element = first
+        labels = [a.label for a in c.atoms]
+        self.unique_labels = len(set(labels)) == len(labels) and None not in labels
         self.used = {}
 
     def __call__(self, i):
@@ -215,6 +238,8 @@ class Spelling:
         a = self.c.atoms[i]
         if kind == "element" and self.first_of_element.get(a.element) != i:
             kind = "idx"
+        if kind == "label" and not self.unique_labels:
+            kind = "obj"
         self.used[kind] = self.used.get(kind, 0) + 1
         if kind == "obj":
             return a
@@ -227,7 +252,43 @@ class Spelling:
         return a.element
 
 
-def impl_query(c, n, bonds, policy="obj", rng=None):
+def consume(gen, c, rng, mutate):
+    """read a traversal generator to the end.  With `mutate` the consumer edits atom fields between two next() calls, as
+    code does that numbers / annotates atoms in traversal order: label, isotope, attrib and element of the atom just
+    yielded and of another atom are changed; everything is put back when the traversal is over."""
+    if not mutate:
+        return list(gen)
+    from molli.chem import Element
+    out, saved, k = [], {}, 0
+    atoms = c.atoms
+
+    def touch(a):
+        if id(a) not in saved:
+            saved[id(a)] = (a, a.label, a.isotope, a.element, dict(a.attrib))
+        a.label = f"visited{k}"
+        a.isotope = 100 + k
+        a.attrib["order"] = k
+        if rng.chance(1, 2):
+            a.element = Element(rng.choice([2, 10, 18, 36]))
+
+    try:
+        for item in gen:
+            out.append(item)
+            if k > 6 * len(atoms) + 20:
+                break           # a traversal of a finite graph that does not end: leave it to the oracle
+            touch(item[0] if isinstance(item, tuple) else item)
+            if atoms:
+                touch(atoms[rng.below(len(atoms))])
+            k += 1
+    finally:
+        for a, lab, iso, el, attrib in saved.values():
+            a.label, a.isotope, a.element = lab, iso, el
+            a.attrib.clear()
+            a.attrib.update(attrib)
+    return out
+
+
+def impl_query(c, n, bonds, policy="obj", rng=None, mutate=False):
     """everything the driver's `q` request computes, from the real object, every atom argument spelled according to
     `policy` (one designator kind, or `mixed` = drawn per argument); returns (line, raw observations)"""
     from molli.chem import Bond
@@ -237,14 +298,14 @@ def impl_query(c, n, bonds, policy="obj", rng=None):
     sp = Spelling(c, policy, rng)
     obs = {"bfs": [], "bfs_nolabel": [], "dir": [], "ring": [], "ringr": [], "nb": [], "bw": [], "val": [], "deg": []}
     for s in range(n):
-        r = [(idx[id(a)], d) for a, d in c.yield_bfsd(sp(s))]
+        r = [(idx[id(a)], d) for a, d in consume(c.yield_bfsd(sp(s)), c, rng, mutate)]
         obs["bfs"].append(r)
-        obs["bfs_nolabel"].append([idx[id(a)] for a in c.yield_bfs(sp(s))])
+        obs["bfs_nolabel"].append([idx[id(a)] for a in consume(c.yield_bfs(sp(s)), c, rng, mutate)])
     for b in c.bonds:
         for s, d in ((idx[id(b.a1)], idx[id(b.a2)]), (idx[id(b.a2)], idx[id(b.a1)])):
             try:
-                r = [(idx[id(a)], k) for a, k in c.yield_bfsd(sp(s), sp(d))]
-                r2 = [idx[id(a)] for a in c.yield_bfs(sp(s), sp(d))]
+                r = [(idx[id(a)], k) for a, k in consume(c.yield_bfsd(sp(s), sp(d)), c, rng, mutate)]
+                r2 = [idx[id(a)] for a in consume(c.yield_bfs(sp(s), sp(d)), c, rng, mutate)]
             except AssertionError:
                 r, r2 = "err", "err"
             obs["dir"].append((r, r2))
@@ -501,7 +562,7 @@ def make_pattern(rng, G, maxsize=5):
     plain = style <= 4
     atoms = []
     for v in chosen:
-        z, iso, st = ga[v]
+        z, iso, st = ga[v][:3]
         if rng.chance(1, 5):
             z = 0
         if plain:
@@ -588,7 +649,9 @@ def one_graph(ctx, batch, rng, atoms, bonds, kind, origin, do_match=True, polici
     obs = None
     for policy in policies:
         tag = {"op": "q", "graph": gj, "kind": kind, "designators": policy}
-        impl_line, obs = impl_query(c, n, bonds, policy, rng)
+        impl_line, obs = impl_query(c, n, bonds, policy, rng, mutate=(policy == "mixed"))
+        if policy == "mixed":
+            ctx.count("traversals-with-mutating-consumer", 2 * n + 4 * len(bonds))
         for k, v in obs["spellings"].items():
             ctx.count(f"designator:{k}", v)
         batch.add(line, impl_line, tag)
@@ -638,13 +701,13 @@ def gen_edit(rng, atoms, bonds, serial):
     if op == "del_atom":
         return {"op": "del_atom", "i": rng.below(n), "spell": rng.choice(["obj", "idx", "label"])}
     if op == "add_atom":
-        z, iso, st = rand_atom(rng)
+        z, iso, st = rand_atom(rng)[:3]
         to = rng.below(n) if n and rng.chance(4, 5) else None
         bt, bst, lab, fo = rand_bond_attrs(rng)
         return {"op": "add_atom", "z": z, "iso": iso, "st": st, "name": f"n{serial}", "to": to, "bt": bt, "bst": bst,
                 "blabel": lab, "fo": frac_s(fo), "how": rng.choice(["append_atom", "add_atom"])}
-    z, iso, st = rand_atom(rng)
-    return {"op": "set_atom", "i": rng.below(n), "z": z, "iso": iso, "st": st, "name": f"r{serial}"}
+    z, iso, st, at, ge = rand_atom(rng)
+    return {"op": "set_atom", "i": rng.below(n), "z": z, "iso": iso, "st": st, "name": f"r{serial}", "atype": at, "geom": ge}
 
 
 def apply_edit(c, atoms, bonds, e):
@@ -697,7 +760,10 @@ def apply_edit(c, atoms, bonds, e):
         a.isotope = e["iso"]
         a.stereo = AtomStereo(e["st"])
         a.label = e["name"]
-        atoms[e["i"]] = (e["z"], e["iso"], e["st"])
+        if "atype" in e:
+            from molli.chem import AtomGeom, AtomType
+            a.atype, a.geom = AtomType(e["atype"]), AtomGeom(e["geom"])
+        atoms[e["i"]] = (e["z"], e["iso"], e["st"], e.get("atype", 1), e.get("geom", 0))
     else:
         raise ValueError(op)
 
@@ -706,7 +772,7 @@ def session_step(ctx, batch, rng, c, atoms, bonds, tag, policy, pattern):
     """all queries on the live object as it is now, against the model / oracle of the graph as it is now"""
     n = len(atoms)
     line = q_line(n, bonds)
-    impl_line, obs = impl_query(c, n, bonds, policy, rng)
+    impl_line, obs = impl_query(c, n, bonds, policy, rng, mutate=(policy == "mixed"))
     ctx.case(line + "#" + str(len(tag["edits"])), nontrivial=len(bonds) > 0 and len(tag["edits"]) > 0)
     for k, v in obs["spellings"].items():
         ctx.count(f"designator:{k}", v)
@@ -757,6 +823,38 @@ def run_session(ctx, batch, rng, atoms, bonds, kind, nsteps=None, script=None):
     return c
 
 
+
+# ----------------------------------------------------------------------------------------------
+# fixed shapes under every uniform labelling: the answers are functions of the graph alone
+# ----------------------------------------------------------------------------------------------
+def shapes():
+    ring6 = [(i, (i + 1) % 6) for i in range(6)]
+    yield "biphenyl", 12, ring6 + [(6 + a, 6 + b) for a, b in ring6] + [(0, 6)]
+    yield "two-rings-long-bridge", 11, [(0, 1), (1, 2), (2, 3), (3, 4), (4, 0), (0, 5), (5, 6), (6, 7), (7, 8), (8, 9), (9, 10), (10, 6)]
+    yield "chain", 6, [(i, i + 1) for i in range(5)]
+    yield "tree", 8, [(0, 1), (0, 2), (0, 3), (1, 4), (1, 5), (3, 6), (6, 7)]
+    yield "ring-with-tails", 8, [(0, 1), (1, 2), (2, 3), (3, 0), (0, 4), (2, 5), (5, 6), (6, 7)]
+    yield "fused-rings", 10, [(0, 1), (1, 2), (2, 3), (3, 4), (4, 5), (5, 0), (4, 6), (6, 7), (7, 8), (8, 9), (9, 5)]
+    yield "spiro-and-bridge", 9, [(0, 1), (1, 2), (2, 0), (0, 3), (3, 4), (4, 0), (4, 5), (5, 6), (6, 7), (7, 8), (8, 6)]
+
+
+def labelled_shapes(rng, quick):
+    """every shape with ALL atoms carrying the same AtomType (each value in turn), the same element / isotope / label, and
+    ALL bonds the same BondType (aromatic for the atom-type sweep; each value in turn for the bond-type sweep)"""
+    for name, n, pairs in shapes():
+        sweep = ALL_ATYPES if (not quick or name in ("biphenyl", "chain", "tree")) else sorted({2, *(rng.choice(ALL_ATYPES) for _ in range(3))})
+        for t in sweep:
+            atoms = [(6, None, 0, t, rng.choice(ALL_GEOMS), "C") for _ in range(n)]
+            bonds = [(a, b, 20, 0, None, Fraction(1)) for a, b in pairs]
+            yield f"{name}:atype={t}:bonds=aromatic", atoms, bonds
+        for bt in ALL_BT:
+            if quick and bt not in (0, 1, 2, 20, 21, 98, 10) and name not in ("biphenyl", "tree"):
+                continue
+            atoms = [(6, None, 0, 2, 0, "C") for _ in range(n)]
+            bonds = [(a, b, bt, 0, None, Fraction(1, 2) if bt == 99 else Fraction(1)) for a, b in pairs]
+            yield f"{name}:atype=aromatic:btype={bt}", atoms, bonds
+
+
 def prefix_disconnected(P):
     """some prefix of the pattern's atom list is not connected although the pattern is (numbering not along the bonds)"""
     pa, pb = P
@@ -797,7 +895,7 @@ def sort_model_embeddings(s):
 
 
 def run(ctx):
-    ctx.rule = ("q-cases: one labelled graph (bond-list order, bond orientation, bond types, elements drawn at random) as an object of "
+    ctx.rule = ("q-cases: one labelled graph (bond-list order, bond orientation, bond types, elements, atom type and geometry labels drawn at random; in the mixed pass the traversal generators are read by a consumer that edits atom fields between next() calls) as an object of "
                 "one of the six classes carrying the queries (Connectivity, Structure, Molecule, ConformerEnsemble, Conformer, "
                 "Substructure of a larger renumbered parent) with EVERY start atom, EVERY bond in both directions, every ring flag "
                 "(stored bond and a fresh bond object with swapped ends), every atom's neighbours / incident bonds / valence, each "
@@ -816,6 +914,9 @@ def run(ctx):
         "A-simple: ring perception and matching are claimed for simple graphs (no parallel bonds, no loops); traversal, neighbours and valence for all bond lists",
         "A-dyadic: fractional bond orders are drawn as k/8 so that the float sum of `bonded_valence` is exact",
     ]
+    from molli.chem import AtomGeom, AtomType
+    ALL_ATYPES[:] = [int(t) for t in AtomType]
+    ALL_GEOMS[:] = [int(g) for g in AtomGeom]
     ctx.proof(props=["Molli.Props.C15"], gen=["Valence", "MatchTable"])
     rng = ctx.rng
     batch = Batch(ctx)
@@ -860,6 +961,17 @@ def run(ctx):
         ctx.count(f"exhaustive:n={n}:all-graphs")
     ctx.exhaustive = True
     ctx.extra_cov["exhaustive_upto_atoms"] = nmax
+    batch.flush()
+
+    # ---- fixed shapes, uniformly labelled (atoms that share element / isotope / label / type; bonds that share the type) ----
+    for name, atoms, bonds in labelled_shapes(rng, ctx.quick()):
+        ctx.check_deadline()
+        pairs = list(bonds)
+        rng.shuffle(pairs)
+        bonds = [((b[1], b[0]) + b[2:]) if rng.chance(1, 2) else b for b in pairs]
+        one_graph(ctx, batch, rng, atoms, bonds, rng.choice(KINDS), "shapes", do_match=rng.chance(1, 6),
+                  policies=("obj", "mixed"))
+        ctx.count("shapes:" + name.split(":")[0])
     batch.flush()
 
     # ---- random graphs up to 40 atoms ----
@@ -931,7 +1043,8 @@ def replay(ctx, path):
         print("induced embeddings (oracle):      ", induced_embeddings(P, (atoms, bonds), node_ok_refined, edge_ok_refined))
         print("model:", ctx.driver([m_line(P, (atoms, bonds))]))
     else:
-        line, obs = impl_query(c, len(atoms), bonds, r.get("designators", "obj"), ctx.rng)
+        line, obs = impl_query(c, len(atoms), bonds, r.get("designators", "obj"), ctx.rng,
+                               mutate=(r.get("designators") == "mixed"))
         print(f"implementation ({type(c).__name__}, atom arguments spelled: {r.get('designators', 'obj')}):", line)
         print("model:         ", ctx.driver([q_line(len(atoms), bonds)])[0])
     return 0
